@@ -137,7 +137,13 @@ def plan_for(pid, tier, seed):
                     assumptions=["TLC and the Json/IOUtils community modules", "Coll.tla / Str.tla reference semantics (cross-validated against std)",
                                  "exactly one programmed panic per call (a second panic while unwinding aborts; outside the property)"])
     if pid in COLL_GENS:
-        return dict(level="model_checking", mc=[], traces=coll_corpus(tier, seed, COLL_GENS[pid]), special=[],
+        extra = []
+        if pid in ("C13", "C15"):
+            for prof in ("dbg", "rel"):
+                extra += tj("collx_driver", "zst", tier, prof, seed, 1, ["CollTrace"], max_events=25000)
+                if pid == "C13":
+                    extra += tj("collx_driver", "copyops", tier, prof, seed, 1, ["CollTrace"], max_events=25000)
+        return dict(level="model_checking", mc=[], traces=coll_corpus(tier, seed, COLL_GENS[pid]) + extra, special=[],
                     assumptions=["TLC and the Json/IOUtils community modules",
                                  "the reference semantics Coll.tla (cross-validated: the same formulas accept std's own Vec/Box on the same programs)",
                                  "Tracked elements' drop ledger (harness)"])
